@@ -1,7 +1,8 @@
 (* Property C03: STREAMINFO states the true format, sample count and MD5 of the input.
-   Statements only; proofs in Proofs/StreamInfoP.v.  MD5 and the estimators are arbitrary
-   functions (oracles). *)
-From FV Require Import Model.Base Model.Predict Model.Component Model.Encoder Proofs.StreamInfoP.
+   Statements only; proofs in Proofs/StreamInfoP.v (the encoder model's STREAMINFO) and Proofs/BlockHyps.v (what the
+   independent decoder reads back from the emitted bytes).  MD5 and the estimators are arbitrary functions (oracles). *)
+From FV Require Import Generated Model.Base Model.Rice Model.Predict Model.Component Model.Flac Model.Encoder
+  Proofs.StreamInfoP Proofs.DecodeStream Proofs.BlockHyps.
 Local Open Scope N_scope.
 
 Theorem C03_streaminfo_true :
@@ -23,3 +24,22 @@ Theorem C03_md5_split_independent : forall bps (blocks : list (list Z)),
   md5_input bps (concat blocks) = concat (map (md5_input bps) blocks).
 Proof. exact md5_input_concat. Qed.
 Print Assumptions C03_md5_split_independent.
+
+(* read back from the BYTES by the independent decoder: the STREAMINFO block it parses states the rate, channel count,
+   width, number of inter-channel samples and the MD5 of the little-endian sample bytes of exactly the audio it then
+   decodes from the frames - which is the input (stream_lpc_hyps: see C01_stream_end_to_end_lpc) *)
+Theorem C03_decoded_streaminfo_true :
+  forall (ent : N -> N -> N -> N) (qlpc : N -> N -> qparams) (md5 : list N -> list N)
+         cfg rate channels bps bs samples bytes (total : nat),
+    encode_stream_bytes ent qlpc md5 cfg rate channels bps bs samples = Ok bytes ->
+    cfg_max_parameter cfg <= 14 -> In bps [8; 12; 16; 20; 24] -> 1 <= rate < 2 ^ 20 -> 1 <= channels <= 8 ->
+    16 <= bs <= c_MAX_BLOCK_SIZE ->
+    length samples = (total * N.to_nat channels)%nat -> N.of_nat total < 2 ^ 36 ->
+    length (md5 (md5_input bps samples)) = 16%nat -> Forall (fun x => x < 256) (md5 (md5_input bps samples)) ->
+    stream_lpc_hyps qlpc cfg channels bs samples ->
+    exists si decoded,
+      decode_stream bytes = Some (si, decoded) /\ decoded = samples /\
+      i_rate si = rate /\ i_channels si = channels /\ i_bps si = bps /\
+      i_total si * channels = N.of_nat (length decoded) /\ i_md5 si = md5 (md5_input bps decoded).
+Proof. exact decoded_streaminfo_true. Qed.
+Print Assumptions C03_decoded_streaminfo_true.
